@@ -24,6 +24,7 @@ import YataProofs.Indicators.Realises2
 import YataProofs.Indicators.CMFRun
 import YataProofs.Indicators.StochRun
 import YataProofs.Indicators.RSIRun
+import YataProofs.Indicators.BBRun
 import YataProofs.Numeric.TSIRange
 import YataProofs.Numeric.MeanAbsDev
 namespace Yata.C12
@@ -187,6 +188,17 @@ theorem C12_rsi_run {P : Nat} (c : RSICfg) (k0 : Candle ℚ) (hv : RSI.validate 
     ∃ s0 outs s', RSI.init P c k0 = .ok s0 ∧ runM RSI.vals s0 cs = .ok (outs, s') ∧ outs.length = cs.length ∧
       ∀ i (hi : i < outs.length), ∃ v, outs[i] = [v] ∧ 0 ≤ v.value ∧ v.value ≤ 1 := RSI.run_range c k0 hv h1 s1 cs
 
+/-- Bollinger bands over whole streams, from the constructor: no step panics, the centre is the mean and the quantity under
+    the square root is the sample variance of the last `avg_size` sources — non-negative at every step, hence
+    upper ≥ middle ≥ lower (the bands are `middle ± sigma·sqrt(variance)`, sigma > 0) -/
+theorem C12_bollinger_run {P : Nat} (c : BBCfg) (k0 : Candle ℚ) (hv : BB.validate P c = true) (cs : List (Candle ℚ)) :
+    ∃ s0 outs s', BB.init P c k0 = .ok s0 ∧ runM BB.stepR s0 cs = .ok (outs, s') ∧ outs.length = cs.length ∧
+      ∀ i (hi : i < outs.length),
+        let w := lastN c.avg_size (history c.avg_size (k0.source c.source) ((cs.take (i + 1)).map fun k => k.source c.source))
+        outs[i] = (Spec.mean c.avg_size w,
+          (w.map fun x => (x - Spec.mean c.avg_size w) * (x - Spec.mean c.avg_size w)).sum / ((c.avg_size - 1 : Nat) : ℚ)) ∧
+        0 ≤ (outs[i]).2 := BB.run_spec c k0 hv cs
+
 theorem C12_tr_nonneg (c : Candle ℚ) (p : ℚ) (h : c.low ≤ c.high) : 0 ≤ c.trClose p := tr_nonneg c p h
 
 theorem C12_clv_range (c : Candle ℚ) (h1 : c.low ≤ c.close) (h2 : c.close ≤ c.high) : -1 ≤ c.clv ∧ c.clv ≤ 1 :=
@@ -226,3 +238,4 @@ end Yata.C12
 #print axioms Yata.C12.C12_stochastic_run
 #print axioms Yata.C12.C12_every_smooth_kind_hull
 #print axioms Yata.C12.C12_rsi_run
+#print axioms Yata.C12.C12_bollinger_run
